@@ -207,16 +207,19 @@ def dedupSConfig (dUdp dTcp : Nat) : List SConfig → List SConfig → List SCon
     if seen.any (sameServer dUdp dTcp s) then dedupSConfig dUdp dTcp r (seen ++ [s])
     else s :: dedupSConfig dUdp dTcp r (seen ++ [s])
 
+/-- the server one entry of the new list becomes: an existing server with the same address and ports is
+    kept (taking over the interface when the entry names one), otherwise a new one is created -/
+def updateOne (dUdp dTcp : Nat) (old : List Server) (s : SConfig) : Server :=
+  let u := effPort dUdp s.udp
+  let t := effPort dTcp s.tcp
+  match old.find? (fun o => o.addr == s.addr && o.tcp == t && o.udp == u) with
+  | some o => if s.iface.isEmpty then o else { o with iface := s.iface, scope := s.scope }
+  | none => { addr := s.addr, udp := u, tcp := t, iface := s.iface, scope := s.scope }
+
 /-- `ares_servers_update` on the configuration: the channel's servers become the de-duplicated new
-    list in order (a server that already exists keeps its interface when the new entry names none);
-    `ARES_FLAG_PRIMARY` trims to the first. -/
+    list in order; `ARES_FLAG_PRIMARY` trims to the first. -/
 def serversUpdate (dUdp dTcp : Nat) (primary : Bool) (old : List Server) (l : List SConfig) : List Server :=
-  let fresh := (dedupSConfig dUdp dTcp l []).map (fun s =>
-    let u := effPort dUdp s.udp
-    let t := effPort dTcp s.tcp
-    match old.find? (fun o => o.addr == s.addr && o.tcp == t && o.udp == u) with
-    | some o => if s.iface.isEmpty then o else { o with iface := s.iface, scope := s.scope }
-    | none => ({ addr := s.addr, udp := u, tcp := t, iface := s.iface, scope := s.scope } : Server))
+  let fresh := (dedupSConfig dUdp dTcp l []).map (updateOne dUdp dTcp old)
   if primary then fresh.take 1 else fresh
 
 /-! ### rendering -/
@@ -240,10 +243,13 @@ def serverAddrStr (s : Server) : Option Bytes :=
     let i := if s.iface.isEmpty then [] else [37] ++ s.iface
     some (h ++ [58] ++ showDec s.udp ++ i)
 
+/-- one server appended to the comma separated list (`none` = NULL) -/
+def csvStep (acc : Option Bytes) (s : Server) : Option Bytes :=
+  match acc, serverAddrStr s with
+  | some b, some x => some (if b.isEmpty then x else b ++ [44] ++ x)
+  | _, _ => none
+
 /-- `ares_get_servers_csv` (`none` = NULL) -/
-def serversCsv (l : List Server) : Option Bytes :=
-  l.foldl (fun acc s => match acc, serverAddrStr s with
-      | some b, some x => some (if b.isEmpty then x else b ++ [44] ++ x)
-      | _, _ => none) (some [])
+def serversCsv (l : List Server) : Option Bytes := l.foldl csvStep (some [])
 
 end Cares.Text
